@@ -11,7 +11,7 @@
     runtime facts, observed by checks/C07.py (forced schedules through the CARQUET_VERIF yield
     hook, thread-count sweeps, ThreadSanitizer), not proved. *)
 From Coq Require Import List NArith.
-From Carquet Require Import Conc.Interleave Conc.BatchConc Conc.LazyInit Conc.ConcProofs.
+From Carquet Require Import Conc.Interleave Conc.BatchConc Conc.LazyInit Conc.ConcProofs Util.Crc32Model.
 Import ListNotations.
 
 (** General: if actions of different threads commute pairwise (up to an equivalence [eqS] of shared
@@ -147,3 +147,18 @@ Theorem lazy_init_staged_values :
     Forall2 (fun k x => In (k, x) ws) (firstn (length (reads (fst t))) ks) (reads (fst t)).
 Proof. exact ConcProofs.lazy_init_staged_values. Qed.
 Print Assumptions lazy_init_staged_values.
+
+(** The instance for the 8 x 256 slicing tables of src/util/crc32.c (the table proved equal to the
+    IEEE CRC-32 tables in C14, Util/Crc32Model.tables, flattened): however many threads race through
+    crc32_init_tables on first use, and whatever cells each of them then reads, the table ends equal
+    to the sequentially built one and every read returned the final entry. *)
+Theorem crc32_tables_lazy_init :
+  forall kss sched,
+    let tgt := List.concat Crc32Model.tables in
+    (forall ks, In ks kss -> forall k, In k ks -> (k < length tgt)%nat) ->
+    kss <> [] -> complete sched (users (tbl_init tgt) (tbl_ws tgt) kss) ->
+    let c := run sched (users (tbl_init tgt) (tbl_ws tgt) kss) in
+    table (fst c) = tgt /\ flag (fst c) = true /\
+    map (fun t => reads (fst t)) (snd c) = map (map (fun k => nth k tgt 0%N)) kss.
+Proof. exact (ConcProofs.lazy_init_any_table (List.concat Crc32Model.tables)). Qed.
+Print Assumptions crc32_tables_lazy_init.
